@@ -65,29 +65,29 @@ theorem putMany_get_ne (k : String) (rs : List (String × String × Option Nat))
 /-! ### the WATCH invariant -/
 
 /-- what the watch slot of a client must look like, given its program counter -/
-def WOk (srv : Spec) (p : Pc) (w : Option (Option (String × Bool))) : Prop :=
+def WOk (srv : Spec) (now : Nat) (p : Pc) (w : Option (Option (String × Bool))) : Prop :=
   match p with
-  | .casExec k ver _ => ∃ d, w = some (some (k, d)) ∧ (d = false → ∃ r, srv.live 0 k = some r ∧ r.ver = ver)
-  | .casGet k _ _ => ∃ d, w = some (some (k, d))
+  | .casExec k ver _ _ => ∃ d, w = some (some (k, d)) ∧ (d = false → ∃ r, srv.live now k = some r ∧ r.ver = ver)
+  | .casGet k _ _ _ => ∃ d, w = some (some (k, d))
   | _ => True
 
 structure WInv (s : St) : Prop where
   len : s.watch.length = s.pc.length
-  ok : ∀ (t : Nat) (p : Pc), s.pc[t]? = some p → WOk s.srv p s.watch[t]?
+  ok : ∀ (t : Nat) (p : Pc), s.pc[t]? = some p → WOk s.srv s.now p s.watch[t]?
 
-theorem WOk_frame {srv srv' : Spec} {ks : List String}
+theorem WOk_frame {srv srv' : Spec} {now : Nat} {ks : List String}
     (hf : ∀ k, ks.contains k = false → srv'.store.get k = srv.store.get k)
-    {p : Pc} {w : Option (Option (String × Bool))} (h : WOk srv p w) :
-    WOk srv' p (w.map (touchE ks)) := by
+    {p : Pc} {w : Option (Option (String × Bool))} (h : WOk srv now p w) :
+    WOk srv' now p (w.map (touchE ks)) := by
   cases p with
-  | casExec k ver v =>
+  | casExec k ver v e =>
     obtain ⟨d, rfl, hd⟩ := h
     refine ⟨d || ks.contains k, rfl, ?_⟩
     intro hfalse
     rw [Bool.or_eq_false_iff] at hfalse
     obtain ⟨r, hr, hv⟩ := hd hfalse.1
     exact ⟨r, by rw [live_congr (hf k hfalse.2)]; exact hr, hv⟩
-  | casGet k ver v =>
+  | casGet k ver v e =>
     obtain ⟨d, rfl⟩ := h
     exact ⟨d || ks.contains k, rfl⟩
   | _ => trivial
@@ -96,8 +96,8 @@ theorem WInv.update {s : St} (hi : WInv s) {srv' : Spec} {ks : List String}
     (hf : ∀ k, ks.contains k = false → srv'.store.get k = s.srv.store.get k)
     {t : Nat} {p' : Pc} {W : List (Option (String × Bool))} (hlen : W.length = s.watch.length)
     (hoth : ∀ t', t' ≠ t → W[t']? = (touch s.watch ks)[t']?)
-    (hself : t < s.pc.length → WOk srv' p' W[t]?) :
-    WInv { srv := srv', pc := s.pc.set t p', watch := W } := by
+    (hself : t < s.pc.length → WOk srv' s.now p' W[t]?) :
+    WInv { srv := srv', now := s.now, pc := s.pc.set t p', watch := W } := by
   constructor
   · simp [hlen, hi.len]
   · intro t' p hp
@@ -140,8 +140,12 @@ theorem erase_get_ne (st : Store) (k k' : String)
   apply Store.get_erase_ne
   intro he; simp [he] at h
 
-theorem WInv.cmdStep {s s' : St} {t : Nat} {b : Bool} (hi : WInv s) (h : cmdStep s t = some (s', b)) :
-    WInv s' := by
+theorem WOk_loopNext (srv : Spec) (now : Nat) (rest : List (String × String × Option Nat))
+    (w : Option (Option (String × Bool))) : WOk srv now (loopNext rest) w := by
+  cases rest <;> trivial
+
+theorem WInv.cmdStep {s s' : St} {t : Nat} {l : List (Lin.Ev LOp Out)} (hi : WInv s)
+    (h : cmdStep s t = some (s', l)) : WInv s' := by
   unfold RedisConc.cmdStep at h
   cases hp : s.pc[t]? with
   | none => simp [hp] at h
@@ -153,14 +157,15 @@ theorem WInv.cmdStep {s s' : St} {t : Nat} {b : Bool} (hi : WInv s) (h : cmdStep
     cases p with
     | idle => simp at h
     | done r => simp at h
-    | create1 k v =>
+    | loopDone => simp at h
+    | create1 k v e =>
       simp only at h
       split at h
       · simp only [Option.some.injEq, Prod.mk.injEq] at h; obtain ⟨rfl, rfl⟩ := h
         exact hi.update (ks := []) (fun _ _ => rfl) (by simp) (by simp) (fun _ => trivial)
       · simp only [Option.some.injEq, Prod.mk.injEq] at h; obtain ⟨rfl, rfl⟩ := h
         exact hi.update (ks := [k]) (write_get_ne _ _ _ _) (by simp) (by simp) (fun _ => trivial)
-    | create2 k v =>
+    | create2 k v e =>
       simp only at h
       split at h
       · simp only [Option.some.injEq, Prod.mk.injEq] at h; obtain ⟨rfl, rfl⟩ := h
@@ -173,7 +178,7 @@ theorem WInv.cmdStep {s s' : St} {t : Nat} {b : Bool} (hi : WInv s) (h : cmdStep
     | getMany ks =>
       simp only [Option.some.injEq, Prod.mk.injEq] at h; obtain ⟨rfl, rfl⟩ := h
       exact hi.update (ks := []) (fun _ _ => rfl) (by simp) (by simp) (fun _ => trivial)
-    | put k v =>
+    | put k v e =>
       simp only [Option.some.injEq, Prod.mk.injEq] at h; obtain ⟨rfl, rfl⟩ := h
       exact hi.update (ks := [k]) (write_get_ne _ _ _ _) (by simp) (by simp) (fun _ => trivial)
     | putMany rs =>
@@ -184,6 +189,13 @@ theorem WInv.cmdStep {s s' : St} {t : Nat} {b : Bool} (hi : WInv s) (h : cmdStep
       simp only
       apply putMany_get_ne
       simpa [List.map_map] using hk
+    | putLoop rs =>
+      cases rs with
+      | nil => simp at h
+      | cons a rest =>
+        obtain ⟨k, v, e⟩ := a
+        simp only [Option.some.injEq, Prod.mk.injEq] at h; obtain ⟨rfl, rfl⟩ := h
+        exact hi.update (ks := [k]) (write_get_ne _ _ _ _) (by simp) (by simp) (fun _ => WOk_loopNext _ _ _ _)
     | del k =>
       simp only at h
       split at h
@@ -191,12 +203,12 @@ theorem WInv.cmdStep {s s' : St} {t : Nat} {b : Bool} (hi : WInv s) (h : cmdStep
         exact hi.update (ks := []) (fun _ _ => rfl) (by simp) (by simp) (fun _ => trivial)
       · simp only [Option.some.injEq, Prod.mk.injEq] at h; obtain ⟨rfl, rfl⟩ := h
         exact hi.update (ks := [k]) (erase_get_ne _ _) (by simp) (by simp) (fun _ => trivial)
-    | casWatch k ver v =>
+    | casWatch k ver v e =>
       simp only [Option.some.injEq, Prod.mk.injEq] at h; obtain ⟨rfl, rfl⟩ := h
       refine hi.update (ks := []) (fun _ _ => rfl) (by simp) ?_ ?_
       · intro t' ht; simp [List.getElem?_set_ne (Ne.symm ht)]
       · intro _; exact ⟨false, by simp [hlt]⟩
-    | casGet k ver v =>
+    | casGet k ver v e =>
       have hw := hi.ok t _ hp
       obtain ⟨d, hd⟩ := hw
       simp only at h
@@ -215,7 +227,7 @@ theorem WInv.cmdStep {s s' : St} {t : Nat} {b : Bool} (hi : WInv s) (h : cmdStep
           intro _
           refine ⟨d, hd, fun _ => ⟨r, hr, ?_⟩⟩
           simpa using hv
-    | casExec k ver v =>
+    | casExec k ver v e =>
       simp only at h
       split at h
       · simp only [Option.some.injEq, Prod.mk.injEq] at h; obtain ⟨rfl, rfl⟩ := h
@@ -225,85 +237,93 @@ theorem WInv.cmdStep {s s' : St} {t : Nat} {b : Bool} (hi : WInv s) (h : cmdStep
         refine hi.update (ks := []) (fun _ _ => rfl) (by simp) ?_ (fun _ => trivial)
         intro t' ht; simp [List.getElem?_set_ne (Ne.symm ht)]
 
-theorem cmdStep_shape {s s' : St} {t : Nat} {b : Bool} (hi : WInv s) (h : cmdStep s t = some (s', b)) :
-    ∃ p op, s.pc[t]? = some p ∧ opOf p = some op ∧
-      ((b = true ∧ s'.srv = (s.srv.step 0 op).1 ∧ s'.pc = s.pc.set t (.done (s.srv.step 0 op).2)) ∨
-       (b = false ∧ s'.srv = s.srv ∧ ∃ p', opOf p' = some op ∧ s'.pc = s.pc.set t p')) := by
+/-- the shape of every command step: the clock stands still, and the step is
+(1) the linearization point of the client's operation: the server takes the contract's step at the
+    current time and the result is fixed; or
+(2) silent: server unchanged, same operation; or
+(3) one SET of the PutMany loop: the server takes a write. -/
+theorem cmdStep_shape {s s' : St} {t : Nat} {l : List (Lin.Ev LOp Out)} (hi : WInv s)
+    (h : cmdStep s t = some (s', l)) :
+    ∃ p, s.pc[t]? = some p ∧ s'.now = s.now ∧
+      ((∃ op, opOf p = some op ∧ l = [.lin t] ∧ s'.srv = (s.srv.step s.now op).1 ∧
+          s'.pc = s.pc.set t (.done (s.srv.step s.now op).2)) ∨
+       (∃ op, opOf p = some op ∧ l = [] ∧ s'.srv = s.srv ∧ ∃ p', opOf p' = some op ∧ s'.pc = s.pc.set t p') ∨
+       (∃ k v e rest, p = .putLoop ((k, v, e) :: rest) ∧
+          l = [.inv t (.op (.put k v e)), .lin t, .ret t (.okVer s.srv.nextVer)] ∧
+          s'.srv = (s.srv.write k v e).1 ∧ s'.pc = s.pc.set t (loopNext rest))) := by
   unfold RedisConc.cmdStep at h
   cases hp : s.pc[t]? with
   | none => simp [hp] at h
   | some p =>
     rw [hp] at h
-    refine ⟨p, ?_⟩
+    refine ⟨p, rfl, ?_⟩
     cases p with
     | idle => simp at h
     | done r => simp at h
-    | create1 k v =>
-      refine ⟨_, rfl, rfl, ?_⟩
+    | loopDone => simp at h
+    | create1 k v e =>
       simp only at h
       split at h
       · simp only [Option.some.injEq, Prod.mk.injEq] at h; obtain ⟨rfl, rfl⟩ := h
-        exact .inr ⟨rfl, rfl, _, rfl, rfl⟩
+        exact ⟨rfl, .inr (.inl ⟨_, rfl, rfl, rfl, _, rfl, rfl⟩)⟩
       · rename_i hl
         simp only [Option.some.injEq, Prod.mk.injEq] at h; obtain ⟨rfl, rfl⟩ := h
-        refine .inl ⟨rfl, ?_, ?_⟩ <;> simp [Spec.step, hl, St.setPc]
-    | create2 k v =>
-      refine ⟨_, rfl, rfl, ?_⟩
+        refine ⟨rfl, .inl ⟨_, rfl, rfl, ?_, ?_⟩⟩ <;> simp [Spec.step, hl, St.setPc]
+    | create2 k v e =>
       simp only at h
       split at h
       · rename_i r hl
         simp only [Option.some.injEq, Prod.mk.injEq] at h; obtain ⟨rfl, rfl⟩ := h
-        refine .inl ⟨rfl, ?_, ?_⟩ <;> simp [Spec.step, hl, St.setPc]
+        refine ⟨rfl, .inl ⟨_, rfl, rfl, ?_, ?_⟩⟩ <;> simp [Spec.step, hl, St.setPc]
       · simp only [Option.some.injEq, Prod.mk.injEq] at h; obtain ⟨rfl, rfl⟩ := h
-        exact .inr ⟨rfl, rfl, .create1 k v, rfl, rfl⟩
+        exact ⟨rfl, .inr (.inl ⟨_, rfl, rfl, rfl, .create1 k v e, rfl, rfl⟩)⟩
     | get k =>
-      refine ⟨_, rfl, rfl, ?_⟩
       simp only [Option.some.injEq, Prod.mk.injEq] at h; obtain ⟨rfl, rfl⟩ := h
-      refine .inl ⟨rfl, ?_, rfl⟩
+      refine ⟨rfl, .inl ⟨_, rfl, rfl, ?_, rfl⟩⟩
       simp only [St.setPc, Spec.step]; split <;> rfl
     | getMany ks =>
-      refine ⟨_, rfl, rfl, ?_⟩
       simp only [Option.some.injEq, Prod.mk.injEq] at h; obtain ⟨rfl, rfl⟩ := h
-      exact .inl ⟨rfl, rfl, rfl⟩
-    | put k v =>
-      refine ⟨_, rfl, rfl, ?_⟩
+      exact ⟨rfl, .inl ⟨_, rfl, rfl, rfl, rfl⟩⟩
+    | put k v e =>
       simp only [Option.some.injEq, Prod.mk.injEq] at h; obtain ⟨rfl, rfl⟩ := h
-      exact .inl ⟨rfl, rfl, rfl⟩
+      exact ⟨rfl, .inl ⟨_, rfl, rfl, rfl, rfl⟩⟩
     | putMany rs =>
-      refine ⟨_, rfl, rfl, ?_⟩
       simp only [Option.some.injEq, Prod.mk.injEq] at h; obtain ⟨rfl, rfl⟩ := h
-      refine .inl ⟨rfl, rfl, ?_⟩
+      refine ⟨rfl, .inl ⟨_, rfl, rfl, rfl, ?_⟩⟩
       rw [Spec.step_putMany]; rfl
+    | putLoop rs =>
+      cases rs with
+      | nil => simp at h
+      | cons a rest =>
+        obtain ⟨k, v, e⟩ := a
+        simp only [Option.some.injEq, Prod.mk.injEq] at h; obtain ⟨rfl, rfl⟩ := h
+        exact ⟨rfl, .inr (.inr ⟨k, v, e, rest, rfl, rfl, rfl, rfl⟩)⟩
     | del k =>
-      refine ⟨_, rfl, rfl, ?_⟩
       simp only at h
       split at h
       · rename_i hl
         simp only [Option.some.injEq, Prod.mk.injEq] at h; obtain ⟨rfl, rfl⟩ := h
-        refine .inl ⟨rfl, ?_, ?_⟩ <;> simp [Spec.step, hl, St.setPc]
+        refine ⟨rfl, .inl ⟨_, rfl, rfl, ?_, ?_⟩⟩ <;> simp [Spec.step, hl, St.setPc]
       · rename_i r hl
         simp only [Option.some.injEq, Prod.mk.injEq] at h; obtain ⟨rfl, rfl⟩ := h
-        refine .inl ⟨rfl, ?_, ?_⟩ <;> simp [Spec.step, hl, St.setPc]
-    | casWatch k ver v =>
-      refine ⟨_, rfl, rfl, ?_⟩
+        refine ⟨rfl, .inl ⟨_, rfl, rfl, ?_, ?_⟩⟩ <;> simp [Spec.step, hl, St.setPc]
+    | casWatch k ver v e =>
       simp only [Option.some.injEq, Prod.mk.injEq] at h; obtain ⟨rfl, rfl⟩ := h
-      exact .inr ⟨rfl, rfl, .casGet k ver v, rfl, rfl⟩
-    | casGet k ver v =>
-      refine ⟨_, rfl, rfl, ?_⟩
+      exact ⟨rfl, .inr (.inl ⟨_, rfl, rfl, rfl, .casGet k ver v e, rfl, rfl⟩)⟩
+    | casGet k ver v e =>
       simp only at h
       split at h
       · rename_i hl
         simp only [Option.some.injEq, Prod.mk.injEq] at h; obtain ⟨rfl, rfl⟩ := h
-        refine .inl ⟨rfl, ?_, ?_⟩ <;> simp [Spec.step, hl, St.setPc]
+        refine ⟨rfl, .inl ⟨_, rfl, rfl, ?_, ?_⟩⟩ <;> simp [Spec.step, hl, St.setPc]
       · rename_i r hl
         split at h
         · rename_i hv
           simp only [Option.some.injEq, Prod.mk.injEq] at h; obtain ⟨rfl, rfl⟩ := h
-          refine .inl ⟨rfl, ?_, ?_⟩ <;> simp [Spec.step, hl, St.setPc, hv]
+          refine ⟨rfl, .inl ⟨_, rfl, rfl, ?_, ?_⟩⟩ <;> simp [Spec.step, hl, St.setPc, hv]
         · simp only [Option.some.injEq, Prod.mk.injEq] at h; obtain ⟨rfl, rfl⟩ := h
-          exact .inr ⟨rfl, rfl, .casExec k ver v, rfl, rfl⟩
-    | casExec k ver v =>
-      refine ⟨_, rfl, rfl, ?_⟩
+          exact ⟨rfl, .inr (.inl ⟨_, rfl, rfl, rfl, .casExec k ver v e, rfl, rfl⟩)⟩
+    | casExec k ver v e =>
       obtain ⟨d, hd, hr⟩ := hi.ok t _ hp
       simp only at h
       split at h
@@ -312,9 +332,9 @@ theorem cmdStep_shape {s s' : St} {t : Nat} {b : Bool} (hi : WInv s) (h : cmdSte
         simp only [Option.some.injEq, Prod.mk.injEq] at hw
         obtain ⟨r, hl, hv⟩ := hr hw.2
         simp only [Option.some.injEq, Prod.mk.injEq] at h; obtain ⟨rfl, rfl⟩ := h
-        refine .inl ⟨rfl, ?_, ?_⟩ <;> simp [Spec.step, hl, St.setPc, hv]
+        refine ⟨rfl, .inl ⟨_, rfl, rfl, ?_, ?_⟩⟩ <;> simp [Spec.step, hl, St.setPc, hv]
       · simp only [Option.some.injEq, Prod.mk.injEq] at h; obtain ⟨rfl, rfl⟩ := h
-        exact .inr ⟨rfl, rfl, .casWatch k ver v, rfl, rfl⟩
+        exact ⟨rfl, .inr (.inl ⟨_, rfl, rfl, rfl, .casWatch k ver v e, rfl, rfl⟩)⟩
 
 /-! ### entry / opOf -/
 
@@ -330,44 +350,84 @@ theorem putMany_roundtrip (rs : List (String × String × Option Nat))
     | some x => simp at h
     | none => simp only [List.map_cons, ih h.2]
 
-theorem entry_opOf {op : Op} {p : Pc} (h : entry op = some p) : opOf p = some op := by
+/-- a call either starts ONE operation (`opOf`), or it is the loop path of PutMany -/
+theorem entry_opOf {op : Op} {p : Pc} (h : entry op = some p) :
+    (opOf p = some op ∧ ∀ t, callEvs t op p = [.inv t (.op op)]) ∨
+    (∃ rs, p = .putLoop rs ∧ ∀ t, callEvs t op p = []) := by
   cases op with
-  | create k v e => cases e <;> simp [entry] at h; subst h; rfl
-  | get k => simp [entry] at h; subst h; rfl
-  | getMany ks => simp [entry] at h; subst h; rfl
-  | put k v e => cases e <;> simp [entry] at h; subst h; rfl
+  | create k v e => simp [entry] at h; subst h; exact .inl ⟨rfl, fun _ => rfl⟩
+  | get k => simp [entry] at h; subst h; exact .inl ⟨rfl, fun _ => rfl⟩
+  | getMany ks => simp [entry] at h; subst h; exact .inl ⟨rfl, fun _ => rfl⟩
+  | put k v e => simp [entry] at h; subst h; exact .inl ⟨rfl, fun _ => rfl⟩
   | putMany rs =>
     simp only [entry] at h
     split at h
-    · rename_i hall
-      simp only [Option.some.injEq] at h; subst h
-      simp only [opOf, putMany_roundtrip rs hall]
     · cases h
-  | cas k ver v e => cases e <;> simp [entry] at h; subst h; rfl
-  | delete k => simp [entry] at h; subst h; rfl
+    · split at h
+      · rename_i hall
+        simp only [Option.some.injEq] at h; subst h
+        exact .inl ⟨by simp only [opOf, putMany_roundtrip rs hall], fun _ => rfl⟩
+      · simp only [Option.some.injEq] at h; subst h
+        exact .inr ⟨rs, rfl, fun _ => rfl⟩
+  | cas k ver v e => simp [entry] at h; subst h; exact .inl ⟨rfl, fun _ => rfl⟩
+  | delete k => simp [entry] at h; subst h; exact .inl ⟨rfl, fun _ => rfl⟩
   | list p => simp [entry] at h
   | wait k ver => simp [entry] at h
 
-theorem entry_WOk {op : Op} {p : Pc} (h : entry op = some p) (srv : Spec)
-    (w : Option (Option (String × Bool))) : WOk srv p w := by
+theorem entry_WOk {op : Op} {p : Pc} (h : entry op = some p) (srv : Spec) (now : Nat)
+    (w : Option (Option (String × Bool))) : WOk srv now p w := by
   cases op with
-  | create k v e => cases e <;> simp [entry] at h; subst h; trivial
+  | create k v e => simp [entry] at h; subst h; trivial
   | get k => simp [entry] at h; subst h; trivial
   | getMany ks => simp [entry] at h; subst h; trivial
-  | put k v e => cases e <;> simp [entry] at h; subst h; trivial
+  | put k v e => simp [entry] at h; subst h; trivial
   | putMany rs =>
     simp only [entry] at h
     split at h
-    · simp only [Option.some.injEq] at h; subst h; trivial
     · cases h
-  | cas k ver v e => cases e <;> simp [entry] at h; subst h; trivial
+    · split at h
+      · simp only [Option.some.injEq] at h; subst h; trivial
+      · simp only [Option.some.injEq] at h; subst h; trivial
+  | cas k ver v e => simp [entry] at h; subst h; trivial
   | delete k => simp [entry] at h; subst h; trivial
   | list p => simp [entry] at h
   | wait k ver => simp [entry] at h
 
+/-! ### the clock -/
+
+theorem not_blocked_of_any {pc : List Pc} (h : pc.any tickBlocked = false) (t : Nat) (p : Pc)
+    (hp : pc[t]? = some p) : tickBlocked p = false := by
+  rw [List.any_eq_false] at h
+  have := h p (List.mem_of_getElem? hp)
+  simpa using this
+
+/-- the shape of a tick: enabled only outside every TTL window; only the clock moves -/
+theorem tick_shape {s s' : St} {d : Nat} {l : List (Lin.Ev LOp Out)} (h : step s (.tick d) = some (s', l)) :
+    (∀ (t : Nat) (p : Pc), s.pc[t]? = some p → tickBlocked p = false) ∧
+    s' = { s with now := s.now + d } ∧
+    l = [.inv s.pc.length (.tick d), .lin s.pc.length, .ret s.pc.length .ok] := by
+  simp only [RedisConc.step] at h
+  split at h
+  · cases h
+  · rename_i hb
+    simp only [Option.some.injEq, Prod.mk.injEq] at h
+    exact ⟨not_blocked_of_any (by simpa using hb), h.1.symm, h.2.symm⟩
+
+theorem WInv.tick {s : St} (hi : WInv s) (d : Nat)
+    (hb : ∀ (t : Nat) (p : Pc), s.pc[t]? = some p → tickBlocked p = false) : WInv { s with now := s.now + d } := by
+  constructor
+  · exact hi.len
+  · intro t p hp
+    have h1 := hi.ok t p hp
+    have h2 := hb t p hp
+    cases p with
+    | casExec k ver v e => simp [tickBlocked] at h2
+    | casGet k ver v e => exact h1
+    | _ => trivial
+
 /-! ### the invariant along runs -/
 
-theorem WInv.step {s s' : St} {e : Ev} {l : List (Lin.Ev Op Out)} (hi : WInv s)
+theorem WInv.step {s s' : St} {e : Ev} {l : List (Lin.Ev LOp Out)} (hi : WInv s)
     (h : step s e = some (s', l)) : WInv s' := by
   cases e with
   | call t op =>
@@ -375,17 +435,11 @@ theorem WInv.step {s s' : St} {e : Ev} {l : List (Lin.Ev Op Out)} (hi : WInv s)
     split at h
     · rename_i p hp he
       simp only [Option.some.injEq, Prod.mk.injEq] at h; obtain ⟨rfl, rfl⟩ := h
-      exact hi.update (ks := []) (fun _ _ => rfl) (by simp) (by simp) (fun _ => entry_WOk he _ _)
+      exact hi.update (ks := []) (fun _ _ => rfl) (by simp) (by simp) (fun _ => entry_WOk he _ _ _)
     · cases h
   | cmd t =>
     simp only [RedisConc.step] at h
-    cases hc : RedisConc.cmdStep s t with
-    | none => simp [hc] at h
-    | some x =>
-      obtain ⟨s1, b⟩ := x
-      simp only [hc, Option.map_some, Option.some.injEq, Prod.mk.injEq] at h
-      obtain ⟨rfl, _⟩ := h
-      exact hi.cmdStep hc
+    exact hi.cmdStep h
   | ret t r =>
     simp only [RedisConc.step] at h
     split at h
@@ -393,9 +447,16 @@ theorem WInv.step {s s' : St} {e : Ev} {l : List (Lin.Ev Op Out)} (hi : WInv s)
       · simp only [Option.some.injEq, Prod.mk.injEq] at h; obtain ⟨rfl, rfl⟩ := h
         exact hi.update (ks := []) (fun _ _ => rfl) (by simp) (by simp) (fun _ => trivial)
       · cases h
+    · split at h
+      · simp only [Option.some.injEq, Prod.mk.injEq] at h; obtain ⟨rfl, rfl⟩ := h
+        exact hi.update (ks := []) (fun _ _ => rfl) (by simp) (by simp) (fun _ => trivial)
+      · cases h
     · cases h
+  | tick d =>
+    obtain ⟨hb, rfl, _⟩ := tick_shape h
+    exact hi.tick d hb
 
-theorem runL_cons {s : St} {e : Ev} {es : List Ev} {s'' : St} {ls : List (Lin.Ev Op Out)}
+theorem runL_cons {s : St} {e : Ev} {es : List Ev} {s'' : St} {ls : List (Lin.Ev LOp Out)}
     (h : runL s (e :: es) = some (s'', ls)) :
     ∃ s' l ls', step s e = some (s', l) ∧ runL s' es = some (s'', ls') ∧ ls = l ++ ls' := by
   simp only [runL] at h
@@ -412,7 +473,7 @@ theorem runL_cons {s : St} {e : Ev} {es : List Ev} {s'' : St} {ls : List (Lin.Ev
       obtain ⟨rfl, rfl⟩ := h
       exact ⟨s', l, ls', rfl, hr, rfl⟩
 
-theorem WInv.runL {es : List Ev} : ∀ {s s' : St} {ls : List (Lin.Ev Op Out)}, WInv s →
+theorem WInv.runL {es : List Ev} : ∀ {s s' : St} {ls : List (Lin.Ev LOp Out)}, WInv s →
     runL s es = some (s', ls) → WInv s' := by
   induction es with
   | nil => intro s s' ls hi h; simp only [RedisConc.runL, Option.some.injEq, Prod.mk.injEq] at h; exact h.1 ▸ hi
@@ -434,22 +495,52 @@ theorem run_append {σ ι ρ : Type} [DecidableEq ρ] (o : Obj σ ι ρ) (l1 l2 
     | none => rfl
     | some L1 => simp only [Option.bind_some]; exact ih L1
 
+/-- a complete operation (invocation, atomic step, response with the object's result) of an idle
+thread is accepted and leaves every thread as it was -/
+theorem run_complete {σ ι ρ : Type} [DecidableEq ρ] (o : Obj σ ι ρ) (L : Sys σ ι ρ) (c : Nat) (i : ι)
+    (h : L.th c = .idle) :
+    L.run o [.inv c i, .lin c, .ret c (o.step L.st i).2] =
+      some { L with st := (o.step L.st i).1, pos := L.pos + 3,
+                    order := L.order ++ [(L.pos, i, (o.step L.st i).2)],
+                    retPos := L.retPos ++ [(L.pos, L.pos + 2)] } := by
+  have hth : setTh (setTh (setTh L.th c (.pending L.pos i)) c (.linearized L.pos i (o.step L.st i).2)) c .idle
+      = L.th := by
+    funext x
+    simp only [setTh]
+    split
+    · rename_i hx; subst hx; exact h.symm
+    · rfl
+  simp only [Sys.run, Sys.ev, h, setTh, if_true, Option.bind_some]
+  rw [hth]
+
 /-- the shape of a command step that needs no invariant -/
-theorem cmdStep_weak {s s' : St} {t : Nat} {b : Bool} (h : cmdStep s t = some (s', b)) :
+theorem cmdStep_weak {s s' : St} {t : Nat} {l : List (Lin.Ev LOp Out)} (h : cmdStep s t = some (s', l)) :
     ∃ p, s.pc[t]? = some p ∧
-      ((b = true ∧ ∃ r, s'.pc = s.pc.set t (.done r)) ∨
-       (b = false ∧ s'.srv = s.srv ∧ ∃ p', s'.pc = s.pc.set t p' ∧ opOf p' = opOf p)) := by
+      ((l = [.lin t] ∧ (∃ op, opOf p = some op) ∧ ∃ r, s'.pc = s.pc.set t (.done r)) ∨
+       (l = [] ∧ s'.srv = s.srv ∧ ∃ op p', s'.pc = s.pc.set t p' ∧ opOf p' = some op ∧ opOf p = some op) ∨
+       (∃ k v e rest, p = .putLoop ((k, v, e) :: rest) ∧
+          l = [.inv t (.op (.put k v e)), .lin t, .ret t (.okVer s.srv.nextVer)] ∧
+          s'.srv = (s.srv.write k v e).1 ∧ s'.pc = s.pc.set t (loopNext rest))) := by
   unfold RedisConc.cmdStep at h
   cases hp : s.pc[t]? with
   | none => simp [hp] at h
   | some p =>
     rw [hp] at h
     refine ⟨p, rfl, ?_⟩
-    cases p <;> simp only [reduceCtorEq] at h <;> (repeat' split at h) <;>
+    cases p with
+    | putLoop rs =>
+      cases rs with
+      | nil => simp at h
+      | cons a rest =>
+        obtain ⟨k, v, e⟩ := a
+        simp only [Option.some.injEq, Prod.mk.injEq] at h; obtain ⟨rfl, rfl⟩ := h
+        exact .inr (.inr ⟨k, v, e, rest, rfl, rfl, rfl, rfl⟩)
+    | _ =>
+      simp only [reduceCtorEq] at h <;> (repeat' split at h) <;>
       simp only [Option.some.injEq, Prod.mk.injEq] at h <;> obtain ⟨rfl, rfl⟩ := h <;>
       first
-        | exact .inl ⟨rfl, _, rfl⟩
-        | exact .inr ⟨rfl, rfl, _, rfl, rfl⟩
+        | exact .inl ⟨rfl, ⟨_, rfl⟩, _, rfl⟩
+        | exact .inr (.inl ⟨rfl, rfl, _, _, rfl, rfl, rfl⟩)
 
 /-- used by the non-vacuity examples -/
 theorem exists_of_isSome {α β : Type} {x : Option (α × β)} (h : x.isSome = true) :
